@@ -54,6 +54,9 @@ def gen_cases(tier: str, seed: int):
             for sc in (None, "s1", "s_1", "sales$eu"):
                 for cd, cs in ((True, True), (True, False), (False, False)):
                     yield {"storage": "memory", "prior": prior, "db": db, "sc": sc, "cd": cd, "cs": cs, "second": "none", "nop": prior != "lookalike"}
+    # a connect that fails (illegal name, db_path that is not there) leaves the instance able to connect
+    for how in ("illegal-schema-name", "illegal-database-name", "db-path-missing"):
+        yield {"kind": "after_failed_connect", "how": how}
     if tier == "quick":  # a slice of the file modes on every change
         for st, prior, db, sc, cd, cs in itertools.product(
             ["path_fresh", "path_reopen"], PRIOR, [None, "db1"], [None, "s1", "information_schema"], (True, False), (True, False)
@@ -127,7 +130,56 @@ def _prep(fs: Any, world: World, prior: str, path_mode: bool) -> Any:
     return other
 
 
+def _after_failed_connect(case: dict, env: core.Env) -> None:
+    import threading
+
+    how = case["how"]
+    tmp = tempfile.mkdtemp(prefix="fsverif-c14f-")
+    try:
+        fs = core.new_fs(db_path=os.path.join(tmp, "not", "there")) if how == "db-path-missing" else core.new_fs()
+        try:
+            args = {"illegal-schema-name": ("db1", "not a legal-name"), "illegal-database-name": ("sales-eu", "s1"), "db-path-missing": ("db1", "s1")}[how]
+            failed = False
+            try:
+                fs.connect(*args)
+            except Exception:  # noqa: BLE001
+                failed = True
+            env.count("cmp_attrs")
+            if not failed:
+                return  # this spelling is accepted here: nothing to examine
+            if how == "db-path-missing":
+                os.makedirs(os.path.join(tmp, "not", "there"))
+            box: list = []
+
+            def later() -> None:
+                try:
+                    c = fs.connect("db2", "s2")
+                    box.append(("ok", (c.database, c.schema, c.database_set, c.schema_set), c.cursor().execute("SELECT 1").fetchall()))
+                except BaseException as e:  # noqa: BLE001
+                    box.append(("exc", f"{type(e).__name__}: {e}"[:200]))
+
+            th = threading.Thread(target=later, daemon=True)
+            th.start()
+            th.join(15)
+            if not box:
+                env.witness(f"C14/connect-hangs-after-a-failed-connect/{how}", "a well-formed connect() did not return within 15 s")
+            elif box[0][0] == "exc":
+                env.witness(f"C14/connect-raised/after-a-failed-connect/{how}", box[0][1])
+            elif box[0][1:] != (("DB2", "S2", True, True), [(1,)]):
+                env.witness(f"C14/context-flags/after-a-failed-connect/{how}", str(box[0]))
+            env.nontrivial(("after_failed_connect", how))
+        finally:
+            try:
+                fs.duck_conn.close()
+            except Exception:  # noqa: BLE001
+                pass
+    finally:
+        shutil.rmtree(tmp, ignore_errors=True)
+
+
 def run_case(case: dict, env: core.Env) -> None:
+    if case.get("kind") == "after_failed_connect":
+        return _after_failed_connect(case, env)
     st = case["storage"]
     tmp = None
     world = World()
